@@ -224,6 +224,10 @@ class Gen:
             if o == "**":
                 b = r.choice([("num", "2", 2.0), ("num", "3", 3.0), ("num", "0.5", 0.5), ("neg", ("num", "2", 2.0)),
                               ("neg", ("num", "1", 1.0)), ("num", "1.5", 1.5), b])
+                if not (b[0] == "num" or (b[0] == "neg" and b[1][0] == "num")):
+                    # a computed exponent may be integral or not depending on one rounding (0.1**-2 is 99.99999999999999 or 100):
+                    # with a negative base the result is then a number or NaN; keep the base non-negative in that case
+                    a = ("fun", "abs", a)
             return ("bin", o, a, b)
         if k < 0.74:
             return ("neg", self.expr(d - 1))
